@@ -254,6 +254,25 @@ def run_job(job):
         else:
             for i in range(job["n"]):
                 c = rng.random()
+                if c < 0.06:
+                    # option words in front of (or instead of) the query: every combination must end with status 0/1/2
+                    optw = ["--nocolor", "--no-color", "-c", "--config", "/c", "-C", "--CONFIG", "/nocolor", "-i", "--nocolor", "-c", "-cfg", "--i"]
+                    vals = ["cfg.toml", "nope.toml", "t", "", "CFG.TOML", "t/sp ace/f"]
+                    args = []
+                    for _ in range(rng.randint(1, 4)):
+                        o = rng.choice(optw)
+                        args.append(o)
+                        if o.lower().lstrip("-/").startswith("c") and rng.random() < 0.6:
+                            args.append(rng.choice(vals))
+                    tail = rng.choice([None, None, "name from t", "name from t limit 1 into json", "from", "(", "-c", "--nocolor"])
+                    if tail:
+                        args += [tail] if rng.random() < 0.5 else tail.split(" ")
+                    if not os.path.exists(os.path.join(w, "cfg.toml")):
+                        with open(os.path.join(w, "cfg.toml"), "w") as f:
+                            f.write("no_color = true\n")
+                    if go(args, None, "option-words") and i % 50 == 0:
+                        res.sample({"class": "option-words", "args": args}, cap=4)
+                    continue
                 if c < 0.3:
                     toks = gen_soup(rng)
                     cls = "soup"
@@ -310,7 +329,7 @@ def main(chk):
              "bracket kinds, the three quote characters (also unbalanced), numbers, globs, dates, column / function names, root options and "
              "paths inside the scratch tree, as one argument or several; 1-3 token-level mutations (delete, duplicate, transpose, truncate, "
              "insert, glue) of valid generated queries; every scalar/aggregate function with missing, empty, textual, negative, fractional "
-             "and huge arguments; %d directed malformed queries with an exact expected status (one-argument and fully split). Each run is "
+             "and huge arguments; option words (--nocolor, -c/--config with present, missing, unreadable or absent value, -i) in front of or instead of a query; %d directed malformed queries with an exact expected status (one-argument and fully split). Each run is "
              "judged: status in {0,1,2}, no `panicked at`, no signal, no CPU-limit kill, status 2 only with a diagnostic, no stdout on a "
              "`query:` rejection. Non-trivial: every judged run; distinct by (class, argv)." % len(DIRECTED),
         assumptions=["RLIMIT_CPU = 5 s decides 'loops forever' (normal runs use milliseconds); a wall-clock watchdog firing is inconclusive",
